@@ -4,9 +4,9 @@
    fn = "degen" : Data_K.degen of a real Data_K on a diagonal model (energies integers x unit)
    fn = "uu"    : pairs of bands that Data_K.UU_K (random_gauge=True) actually mixed *)
 EXTENDS Periodicity, Json, IOUtils, TLCExt
-VARIABLE i
+VARIABLES i, rec          \* rec = the record itself: read once in the initial predicate, materialised in the state
 Recs == JsonDeserialize(IOEnv.TRACE_FILE).recs
-Rec == Recs[i]
+Rec == rec
 AsSeq(s) == [k \in 1..Len(s) |-> s[k]]
 Mat(M) == [a \in 1..Len(M) |-> [b \in 1..Len(M) |-> <<M[a][b][1], M[a][b][2]>>]]
 PairsOf(s) == [k \in 1..Len(s) |-> <<s[k][1], s[k][2]>>]
@@ -26,7 +26,7 @@ UUClauses ==
    LET E == AsSeq(Rec.E) IN
    [ mixes_only_inside_blocks |-> \A j \in 1..Len(Rec.mixed) : <<Rec.mixed[j][1], Rec.mixed[j][2]>> \in MayMix(E, Rec.th) ]
 Clauses == CASE Rec.fn = "hk" -> HkClauses [] Rec.fn = "degen" -> DegenClauses [] Rec.fn = "uu" -> UUClauses
-Report == \A n \in DOMAIN Clauses : Clauses[n] \/ PrintT(<<"BAD", i, n>>)
-RecInit == i \in 1..Len(Recs)
-RecSpec == RecInit /\ [][UNCHANGED i]_i
+Report == LET C == Clauses IN \A n \in DOMAIN C : C[n] \/ PrintT(<<"BAD", i, n>>)      \* the table is evaluated once
+RecInit == \E rs \in {Recs} : i \in 1..Len(rs) /\ rec = rs[i]
+RecSpec == RecInit /\ [][UNCHANGED <<i, rec>>]_<<i, rec>>
 =============================================================================
